@@ -325,6 +325,20 @@ def check(prog, run):
                           "container payload holds stray bytes besides child boxes")
             var_records(run, fc, box, key, it)
         track_ids(run, r, segs, frag)
+    # the builder route to the fragmented muxer fixes the media timescale: 90 000 as in progressive files
+    n_fc = 0
+    for p_, b_ in u.bodies.items():
+        if b_["in_test_cfg"] or not mir.norm(p_).startswith("api::"):
+            continue
+        for blk in b_["blocks"]:
+            for st in blk["stmts"]:
+                if st["k"] == "assign" and st["rv"]["k"] == "aggregate" and st["rv"].get("agg") == "adt" and str(st["rv"].get("adt", "")).endswith("fragmented::FragmentConfig"):
+                    n_fc += 1
+                    ops_ = dict(zip(st["rv"].get("fields", []), st["rv"]["ops"]))
+                    ts = ops_.get("timescale")
+                    run.check(ts is not None and ts.get("k") == "const" and ts.get("v") == 90000, "R1", "builder fragment timescale %s" % mir.norm(p_).split("::")[-1], "media timescale 90000",
+                              "%s configures the fragmented muxer with timescale %s; the library's media timescale is 90 000" % (mir.norm(p_), ts.get("v") if ts else "?"), mir.loc_of(st))
+    run.check(n_fc >= 1, "R1", "builder fragment configuration", "%d FragmentConfig construction(s) in the API" % n_fc, "the builder no longer constructs a FragmentConfig (anchor)", how="count")
     run.extra["fourccs"] = sorted(B.fc_str(f) for f in seen_fc)
     run.floor("R1", nb, FLOOR_BOXES, "boxes derived")
     for need in (b"mvhd", b"tkhd", b"mdhd", b"hdlr", b"vmhd", b"smhd", b"dref", b"url ", b"stsd", b"avc1", b"hvc1", b"av01", b"vp09", b"mp4a", b"Opus",
@@ -472,6 +486,28 @@ def var_records(run, fc, box, key, it):
         tail = _after(segs, 23) or []
         arrays = _hvcc_arrays(tail)
         good = arrays is not None and [a[0] for a in arrays] == [32, 33, 34][-len(arrays):] and all(a[1] for a in arrays)
+        view, rest = B.byte_view(segs)
+        na = B.field_value(view, 22, 1)
+        opt = [sg for sg in tail if sg[0] == "alt" and not sg[3]]        # an optional array (VPS in the init segment)
+        n_with = len(arrays) if arrays is not None else None
+        n_without = len(_hvcc_arrays([sg for sg in tail if sg not in opt]) or []) if opt else n_with
+        if arrays is not None and na[0] == "const":
+            run.check(na[1][0] == n_with and n_without == n_with, "R3", key + " numOfArrays", "%d arrays announced and emitted" % n_with,
+                      "hvcC numOfArrays is the constant %d but %s parameter-set arrays follow" % (na[1][0], n_with if n_with == n_without else "%d or %d" % (n_without, n_with)))
+        elif arrays is not None and na[0] == "expr":
+            e_ = na[1][1] if na[1][0] == "u8" else None
+            while e_ is not None and e_[0] == "cast":
+                e_ = e_[2]
+            def some_of(c_):
+                # the Option a presence test is about: `x.is_some()` and `if let Some(_) = x` are one condition
+                if c_[0] == "mcall" and str(c_[1]).split("::")[-1] == "is_some":
+                    return L.strip_ids(L.freeze(c_[2]))
+                if c_[0] == "is" and str(c_[2]).endswith("Some"):
+                    return L.strip_ids(L.freeze(c_[1]))
+                return ("cond", L.strip_ids(L.freeze(c_)))
+            ok_ = e_ is not None and e_[0] == "if" and len(opt) == 1 and some_of(e_[1]) == some_of(opt[0][1]) and e_[2] == ("lit", n_with) and e_[3] == ("lit", n_without)
+            run.check(ok_, "R3", key + " numOfArrays", "announced count follows the optional array: %s with it, %s without" % (n_with, n_without),
+                      "hvcC numOfArrays is %s, but %s arrays follow when the optional array is present and %s when it is not" % (L.show(na[1])[:80], n_with, n_without))
         run.check(good, "R3", key + " arrays", "arrays %s, each: completeness|type, numNalus=1, len16(x) x" % [a[0] for a in arrays or []],
                   "hvcC NAL arrays are not [VPS(32), SPS(33), PPS(34)] with matching length prefixes: %s" % ", ".join(L.show(s) for s in tail)[:300])
     elif fc == b"esds":
